@@ -49,6 +49,7 @@ type Ctx struct {
 	callerIx       map[*ssa.Function][]ssa.CallInstruction
 	canon          *canonStats
 	ephemeral      map[string]bool
+	constTables    map[*ssa.Global]bool
 	xIndex         int // which execution site of the commands the run-loop model is built around (see runSites)
 	tableCallsDone bool
 	tableCallSites []string
